@@ -228,29 +228,78 @@ func ruleNestedSelection(r *Report, rule string) {
 	r.Fn(bc)
 	binfo := bc.Pkg.TypesInfo
 	bg := buildCFG(binfo, bc.Decl.Body)
+	modeVars := nestedModeVars(binfo, bc.Decl.Body)
+	// construction sites by role: direct calls of the collector constructors, or calls of a local closure that wraps them
+	nestedCtor := func(f *types.Func) bool { return f != nil && strings.HasPrefix(f.Name(), "NewNestedTopNCollector") }
+	plainCtor := func(f *types.Func) bool { return f != nil && strings.HasPrefix(f.Name(), "NewTopNCollector") }
+	nestedClosures := map[types.Object]bool{}
+	ctorKinds := map[string]bool{}
+	ast.Inspect(bc.Decl.Body, func(x ast.Node) bool {
+		if c, ok := x.(*ast.CallExpr); ok {
+			if f := callee(binfo, c); nestedCtor(f) || plainCtor(f) {
+				ctorKinds[f.Name()] = true
+			}
+		}
+		as, ok := x.(*ast.AssignStmt)
+		if !ok || len(as.Lhs) != 1 || len(as.Rhs) != 1 {
+			return true
+		}
+		if fl, ok := as.Rhs[0].(*ast.FuncLit); ok {
+			for _, c := range callsDeep(fl.Body) {
+				if nestedCtor(callee(binfo, c)) {
+					nestedClosures[objOf(binfo, as.Lhs[0])] = true
+				}
+			}
+		}
+		return true
+	})
 	okSel := false
+	nSites := 0
 	for _, c := range callsIn(bc.Decl.Body) {
-		if id, ok := ast.Unparen(c.Fun).(*ast.Ident); ok && id.Name == "newNestedCollector" {
-			var hasMode, hasFields bool
-			for _, f := range bg.GuardsOf(c) {
-				s := exprStr(f.Expr)
-				if f.Truth && s == "nestedMode" {
-					hasMode = true
-				}
+		isSite := nestedCtor(callee(binfo, c))
+		if id, ok := ast.Unparen(c.Fun).(*ast.Ident); ok && nestedClosures[binfo.ObjectOf(id)] {
+			isSite = true
+		}
+		if !isSite {
+			continue
+		}
+		nSites++
+		var hasMode, hasFields bool
+		for _, f := range bg.GuardsOf(c) {
+			if f.Truth && modeVars[objOf(binfo, f.Expr)] {
+				hasMode = true
 			}
-			// the innermost condition: fs.HasID() || nm.IntersectsPrefix(fs)
-			for _, anc := range enclosing(bc.Decl.Body, c) {
-				if is, ok := anc.(*ast.IfStmt); ok {
-					s := exprStr(is.Cond)
-					if strings.Contains(s, "HasID()") && strings.Contains(s, "IntersectsPrefix(") && strings.Contains(s, "||") {
-						hasFields = true
-					}
-				}
+		}
+		// a condition on the extracted field set: touches _id or a nested prefix
+		facts := factsString(bg.GuardsOf(c))
+		for _, anc := range enclosing(bc.Decl.Body, c) {
+			if is, ok := anc.(*ast.IfStmt); ok {
+				facts += " " + exprStr(is.Cond)
 			}
-			okSel = hasMode && hasFields
+		}
+		if strings.Contains(facts, "HasID()") && strings.Contains(facts, "IntersectsPrefix(") {
+			hasFields = true
+		}
+		okSel = hasMode && hasFields
+		if !okSel {
+			break
 		}
 	}
+	if nSites == 0 {
+		okSel = false
+	}
 	r.Ob(rule, bc.Name+"/nested-collector-iff-mode-and-(id-or-nested-prefix)", bc.Decl.Pos(), okSel, "the nested collector is used when the context is in nested mode and the query touches _id or a field under a nested prefix")
+	// every paging variant of the plain collector has its nested counterpart in this function
+	pairOK := true
+	missing := ""
+	for k := range ctorKinds {
+		if strings.HasPrefix(k, "NewTopNCollector") {
+			if want := "NewNested" + strings.TrimPrefix(k, "New"); !ctorKinds[want] {
+				pairOK, missing = false, want
+			}
+		}
+	}
+	r.Ob(rule, bc.Name+"/every-plain-collector-variant-has-a-nested-one", bc.Decl.Pos(), pairOK && len(ctorKinds) >= 4, "buildTopNCollector constructs plain collectors in several paging variants (From/Size, SearchAfter); each needs its nested counterpart, otherwise that paging mode returns un-folded nested documents ("+missing+" is never constructed)")
 	okExtract := len(callsMatching(binfo, bc.Decl.Body, func(f *types.Func) bool { return f.Name() == "ExtractFields" })) == 1
 	r.Ob(rule, bc.Name+"/fields-from-ExtractFields(req.Query)", bc.Decl.Pos(), okExtract, "the field set is extracted from the request's query")
 	// (3) ConjunctionQuery.Searcher
@@ -258,15 +307,20 @@ func ruleNestedSelection(r *Report, rule string) {
 	r.Fn(cq)
 	cinfo := cq.Pkg.TypesInfo
 	cg := buildCFG(cinfo, cq.Decl.Body)
+	cmodeVars := nestedModeVars(cinfo, cq.Decl.Body)
+	commonV, maxV := nestedDepthVars(cinfo, cq.Decl.Body)
+	if commonV == nil || len(cmodeVars) == 0 {
+		undecidedf("%s: nested-mode flag / NestedDepth results not found", cq.Name)
+	}
 	okConj := false
 	for _, c := range callsIn(cq.Decl.Body) {
 		if f := callee(cinfo, c); f != nil && f.Name() == "NewNestedConjunctionSearcher" {
 			var lt, mode bool
 			for _, fct := range cg.GuardsOf(c) {
-				if be, ok := ast.Unparen(fct.Expr).(*ast.BinaryExpr); ok && fct.Truth && be.Op == token.LSS && exprStr(be.X) == "commonDepth" && exprStr(be.Y) == "maxDepth" {
+				if be, ok := ast.Unparen(fct.Expr).(*ast.BinaryExpr); ok && commonV != nil && ((fct.Truth && be.Op == token.LSS && objOf(cinfo, be.X) == commonV && objOf(cinfo, be.Y) == maxV) || (fct.Truth && be.Op == token.GTR && objOf(cinfo, be.X) == maxV && objOf(cinfo, be.Y) == commonV) || (!fct.Truth && be.Op == token.GEQ && objOf(cinfo, be.X) == commonV && objOf(cinfo, be.Y) == maxV)) {
 					lt = true
 				}
-				if fct.Truth && exprStr(fct.Expr) == "nestedMode" {
+				if fct.Truth && cmodeVars[objOf(cinfo, fct.Expr)] {
 					mode = true
 				}
 			}
@@ -280,7 +334,7 @@ func ruleNestedSelection(r *Report, rule string) {
 			s := exprStr(is.Cond)
 			if strings.Contains(s, "HasAll()") && strings.Contains(s, "HasID()") {
 				for _, st := range is.Body.List {
-					if as, ok := st.(*ast.AssignStmt); ok && exprStr(as.Lhs[0]) == "commonDepth" && exprStr(as.Rhs[0]) == "0" {
+					if as, ok := st.(*ast.AssignStmt); ok && objOf(cinfo, as.Lhs[0]) == commonV && exprStr(as.Rhs[0]) == "0" {
 						okForce = true
 					}
 				}
@@ -328,4 +382,40 @@ func ruleNestedAdvanceBuffered(r *Report, rule string) {
 		}
 	}
 	r.Ob(rule, fi.Name+"/buffered-match-at-or-after-target-is-returned", fi.Decl.Pos(), ok, "matches already produced and buffered by the nested conjunction belong to the ancestor group the sub-searchers have moved past; Advance must hand back the first buffered one that is >= the target instead of recycling the buffer (a boolean/disjunction parent advancing onto that group would otherwise lose it)")
+}
+
+// nestedModeVars: variables assigned from ctx.Value(search.NestedSearchKey).(bool) in body (role, not name).
+func nestedModeVars(info *types.Info, body ast.Node) map[types.Object]bool {
+	out := map[types.Object]bool{}
+	ast.Inspect(body, func(x ast.Node) bool {
+		as, ok := x.(*ast.AssignStmt)
+		if !ok || len(as.Rhs) != 1 || len(as.Lhs) < 1 {
+			return true
+		}
+		if strings.Contains(exprStr(as.Rhs[0]), "NestedSearchKey") {
+			if o := objOf(info, as.Lhs[0]); o != nil {
+				out[o] = true
+			}
+		}
+		return true
+	})
+	return out
+}
+
+// nestedDepthVars: (common, max) = the two results of the NestedDepth call (role, not name).
+func nestedDepthVars(info *types.Info, body ast.Node) (types.Object, types.Object) {
+	var c, m types.Object
+	ast.Inspect(body, func(x ast.Node) bool {
+		as, ok := x.(*ast.AssignStmt)
+		if !ok || len(as.Rhs) != 1 || len(as.Lhs) != 2 {
+			return true
+		}
+		if call, ok := as.Rhs[0].(*ast.CallExpr); ok {
+			if f := callee(info, call); f != nil && f.Name() == "NestedDepth" {
+				c, m = objOf(info, as.Lhs[0]), objOf(info, as.Lhs[1])
+			}
+		}
+		return true
+	})
+	return c, m
 }
